@@ -363,8 +363,11 @@ def props_gen(rng):
     return p
 
 
+BAD_RATE = [1.0]
+
+
 def rand_iarg(rng, around, allow_none=True):
-    m = rng.random()
+    m = rng.random() / BAD_RATE[0]
     if m < 0.08:
         return "bad"
     if m < 0.16:
@@ -382,6 +385,8 @@ class OnlineGen:
         self.n = n_ops
         self.kinds = kinds
         self.focus = focus or {}
+        self.bad = 0.35 if self.focus.get("faulty") else 0.12
+        BAD_RATE[0] = 2.5 if self.focus.get("faulty") else 1.0
 
     def new_op(self, pool):
         rng = self.rng
@@ -459,7 +464,7 @@ class OnlineGen:
         u = UNIT[FAM]
         if k == "load":
             n = cnt if (irregular and rng.random() < 0.7) else None
-            a = arr_desc(rng, kind, dtype, ncols, n=n)
+            a = arr_desc(rng, kind, dtype, ncols, n=n, bad=self.bad)
             n = len(a["vals"])
             op = {"op": "load", "i": j, "arr": a, "copy": rng.random() < 0.55}
             m = rng.random()
@@ -473,7 +478,7 @@ class OnlineGen:
                 op["sc"] = rand_iarg(rng, n)
             return op
         if k == "append_arr":
-            a = arr_desc(rng, kind, dtype, ncols)
+            a = arr_desc(rng, kind, dtype, ncols, bad=self.bad)
             n = len(a["vals"])
             op = {"op": "append_arr", "i": j, "arr": a}
             if kind != "S":
